@@ -81,10 +81,21 @@ VAR_POOL = {
     'm': [['xp', "map{'a': 1, 'b': (2, 3), 'c': [4, ()]}"], ['xp', "map{}"], ['xp', "map{1: map{'x': [1, 2]}}"]],
     'r': [['xp', "[1, (), (2, 3), [4]]"], ['xp', "[]"], ['xp', "['b', 'a', 'c']"]],
     'f': [['xp', "function($x) { $x + 1 }"], ['xp', "abs#1"]],
+    # xs:date / xs:time values with a timezone: the adjust functions only re-label them when the day does not change
+    'g': [['xp', "xs:date('2002-03-07-07:00')"], ['xp', "xs:date('1999-12-31+02:00')"], ['xp', "xs:date('2000-02-29')"]],
+    't': [['xp', "xs:time('10:00:00-07:00')"], ['xp', "xs:time('23:30:00')"]],
+    'k': [['str', 'abc'], ['str', 'b1'], ['str', '']],
+    'l': [['str', 'xyz'], ['str', 'X'], ['str', '']],
 }
 
 # (version set, expression).  '3' = 3.0+, '31' = 3.1 only, '2' = 2.0+, '1' = all
 CORPUS = [
+    ('2', "adjust-date-to-timezone($g, xs:dayTimeDuration('-PT5H'))"), ('2', "adjust-date-to-timezone($g, xs:dayTimeDuration('PT0S'))"),
+    ('2', 'adjust-date-to-timezone($g)'), ('2', 'adjust-date-to-timezone($g, ())'),
+    ('2', "(adjust-date-to-timezone($g, xs:dayTimeDuration('PT10H')), $g)"), ('2', "adjust-time-to-timezone($t, xs:dayTimeDuration('-PT7H'))"),
+    ('2', "(adjust-time-to-timezone($t), timezone-from-time($t))"), ('2', "(adjust-dateTime-to-timezone($d, ()), $d)"),
+    ('1', 'translate($s, $k, $l)'), ('2', "for $m in ($k, $l, 'a') return translate($s, $m, 'z')"),
+    ('2', '(position(), last())'), ('1', 'position() = last()'), ('1', 'last() - position()'), ('1', '//a[position() = last()]'),
     ('1', '//a'), ('1', '//a[@n > 1]/text()'), ('1', 'count(//*)'), ('1', "string(/*/c[1]) = '3'"), ('1', '//a[last()]/@n'),
     ('1', "concat(name(/*), '-', count(//a))"), ('1', '/*/a[1]/following-sibling::*'), ('1', 'sum(//c)'),
     ('2', 'for $x in //a return string($x/@n)'), ('2', 'some $x in //a satisfies $x/@n = 2'),
@@ -447,8 +458,13 @@ def check_forms(case, out):
     """select == iter_select == Selector.select == Selector.iter_select == token.get_results, each on fresh inputs"""
     ver, expr, tz = case['ver'], case['expr'], case['tz']
 
+    focus = case.get('focus')
+
     def fresh_kw():
-        return dict(namespaces=dict(NS), variables=build_vars(case['vars']), timezone=tz)
+        kw = dict(namespaces=dict(NS), variables=build_vars(case['vars']), timezone=tz)
+        if focus:
+            kw.update(position=focus[0], size=focus[1])
+        return kw
 
     def doc():
         return make_doc(case['doc'], case['lib'])
@@ -460,10 +476,12 @@ def check_forms(case, out):
         'select': lambda: elementpath.select(doc(), expr, parser=PARSERS[ver], **fresh_kw()),
         'iter_select': lambda: list(elementpath.iter_select(doc(), expr, parser=PARSERS[ver], **fresh_kw())),
         'Selector.select': lambda: Selector(expr, namespaces=dict(NS), parser=PARSERS[ver]).select(
-            doc(), variables=build_vars(case['vars']), timezone=tz),
+            doc(), **{k: v for k, v in fresh_kw().items() if k != 'namespaces'}),
         'Selector.iter_select': lambda: list(Selector(expr, namespaces=dict(NS), parser=PARSERS[ver]).iter_select(
-            doc(), variables=build_vars(case['vars']), timezone=tz)),
+            doc(), **{k: v for k, v in fresh_kw().items() if k != 'namespaces'})),
     }
+    if focus:
+        out.dim('forms_with_caller_focus', ver)
     rr = call(ref)
     want = result_desc(rr, None)
     out.nontrivial = rr[0] == 'ok'
@@ -526,8 +544,11 @@ def run(h):
                           'form': r.choice(['select', 'iter_select', 'selector', 'token'])})
     for _ in range(h.n(3000)):
         cls, expr = r.choice(CORPUS)
-        h.case('forms', {'expr': expr, 'ver': r.choice(VERSIONS_FOR[cls]), 'doc': r.randrange(len(DOCS)),
-                         'lib': r.choice(['et', 'lxml']), 'vars': g_vars(r, expr), 'tz': r.choice(TIMEZONES)})
+        case = {'expr': expr, 'ver': r.choice(VERSIONS_FOR[cls]), 'doc': r.randrange(len(DOCS)),
+                'lib': r.choice(['et', 'lxml']), 'vars': g_vars(r, expr), 'tz': r.choice(TIMEZONES)}
+        if r.random() < 0.4:
+            case['focus'] = r.choice([[2, 5], [1, 3], [4, 4], [3, 7]])     # position, size given by the caller
+        h.case('forms', case)
     for _ in range(h.n(2500)):
         cls, expr = r.choice(CORPUS)
         steps = []
@@ -571,6 +592,8 @@ def floors(v):
         reasons.append('fewer than 3000 reused-vs-fresh comparisons')
     if v.got('forms_comparisons') < 4000:
         reasons.append('fewer than 4000 entry-point comparisons')
+    if v.got('forms_with_caller_focus') < 300:
+        reasons.append('fewer than 300 entry-point cases with a caller-supplied context position/size')
     if v.got('forms_with_timezone') < 300:
         reasons.append('fewer than 300 entry-point cases with an implicit timezone')
     if v.got('scope_probe') < 150:
